@@ -499,9 +499,9 @@ Theorem C06_track_modes_from_source : forall b i sel inp sx st o,
      Connect_gen.track_th_input_chan (Some (b, i)) sel inp sx st = ConnectPre.set_track_out (Some (b, i)) (fun _ _ => inp) sx st) /\
   (forall f, ConnectFnProofs.mux_mode (ConnectPre.tk_mode o) = Some f ->
      Connect_gen.track_th_input_chan (Some (b, i)) sel inp sx st =
-     ConnectPre.bind_ (ConnectPre.mux_init (Some (b, i)) (ConnectPre.tk_bay o) sel (Some (ConnectPre.ATrk b i)) (Some f) 1)
+     ConnectPre.bind_ (ConnectPre.mux_init (Some (ConnectPre.MTrk b i)) (ConnectPre.tk_bay o) sel (Some (ConnectPre.ATrk b i)) (Some f) 1)
        (ConnectPre.bind_ (ConnectPre.set_track_out (Some (b, i)) (fun _ _ => Some (ConnectPre.ATrk b i)))
-                         (ConnectPre.mux_set_input (Some (b, i)) 0 inp)) sx st) /\
+                         (ConnectPre.mux_set_input (Some (ConnectPre.MTrk b i)) 0 inp)) sx st) /\
   (ConnectPre.tk_mode o <> TRACK_ANY -> ConnectFnProofs.mux_mode (ConnectPre.tk_mode o) = None ->
      Connect_gen.track_th_input_chan (Some (b, i)) sel inp sx st = Err ConnectPre.E_FAIL).
 Proof.
